@@ -1509,9 +1509,14 @@ class ExtendedToOriginalDecorator:
         try:
             outcome = getattr(self.decorated, "addUnexpectedSuccess", None)
             if outcome is None:
+                # Not every reported test is a TestCase (PlaceHolder has no
+                # fail() and its failureException is None).
+                failure_exception = getattr(test, "failureException", None)
+                if failure_exception is None:
+                    failure_exception = AssertionError
                 try:
-                    test.fail("")
-                except test.failureException:
+                    raise failure_exception("")
+                except failure_exception:
                     return self.addFailure(test, sys.exc_info())
             if details is not None:
                 try:
